@@ -29,6 +29,14 @@ class PropertyCheck:
     validated_only = []        # claims of the property that are NOT theorems
     parallel = False           # run `real` in a process pool
 
+    @property
+    def driver_main(self):
+        return f'Driver/{self.id}Main.lean'
+
+    @property
+    def driver_target(self):
+        return f'Driver.{self.id}Main'
+
     # ---- tie T ------------------------------------------------------
     def translate(self):
         """regenerate Gen/*.lean from the current source; return list of problems."""
@@ -113,7 +121,7 @@ def run_cases(prop, cases, have_model):
             r = prop.requests(c)
             spans.append((len(reqs), len(reqs) + len(r)))
             reqs.extend(r)
-        replies = common.run_driver(reqs)
+        replies = common.run_driver(reqs, prop.driver_main)
         for i, c in enumerate(cases):
             a, b = spans[i]
             models[i] = prop.model(c, replies[a:b])
@@ -156,12 +164,12 @@ def run_check(prop, tier, seed, replay=None):
         broken.append(('translator', p))
 
     # 2. build
-    ok, log = common.lake_build(list(prop.lean_targets) + ['Driver'])
+    ok, log = common.lake_build(list(prop.lean_targets) + [prop.driver_target])
     have_model = True
     if not ok:
         broken.append(('lake build', common.first_error(log)))
         # try the driver alone (Impl may still be intact when only a proof/bridge broke)
-        ok2, _ = common.lake_build(['Driver'])
+        ok2, _ = common.lake_build([prop.driver_target])
         have_model = ok2
     # 3. audit
     thms = {}
